@@ -51,7 +51,9 @@
 #define NRC      260                 /* run-time classes created by the harness */
 #define NPFX     5                   /* user classes whose names are prefixes of one another: K1 K10 K100 Pri Print */
 #define PF0      (NBC + NRC)
-#define NU       (NBC + NRC + NPFX)
+#define NLONG    6                   /* user classes with long names that differ late or are prefixes of one another */
+#define LG0      (NBC + NRC + NPFX)
+#define NU       (NBC + NRC + NPFX + NLONG)
 #define MAXINST  256
 
 static void fatal(const char* fmt, ...) {
@@ -216,6 +218,23 @@ static const struct { var* objp; const char* name; int n; const char* decl[3]; }
 };
 static var PI[NPFX][4 + 2];
 
+/* long names: equal for their first 30..254 bytes.  longname(buf, L, d, c): the first L bytes of a fixed 255-byte text,
+   byte d replaced by c (d < 0: unchanged, i.e. a proper prefix of every longer one) */
+static const char LONGBASE[] = "Telemetry_Pipeline_Stage_Ingest_Frame_Decoder_Channel_Buffer_Window_Segment_Record_Header_Payload_"
+  "Checksum_Trailer_Sequence_Counter_Timestamp_Origin_Target_Route_Priority_Class_Level_Group_Index_Offset_Length_Width_Height_"
+  "Depth_Scale_Ratio_Phase_Angle_Limit_End_";
+static char* longname(int L, int d, char c) {
+  char* b = malloc((size_t)L + 1);
+  for (int i = 0; i < L; i++) b[i] = LONGBASE[i % (int)(sizeof LONGBASE - 1)];
+  b[L] = 0;
+  if (d >= 0 && d < L) b[d] = c;
+  return b;
+}
+static var Telemetry_Pipeline_Stage_Ingest_Frame_Decoder = CelloEmpty(Telemetry_Pipeline_Stage_Ingest_Frame_Decoder);
+static var Telemetry_Pipeline_Stage_Ingest_Frame_Encoder = CelloEmpty(Telemetry_Pipeline_Stage_Ingest_Frame_Encoder);
+static var Telemetry_Pipeline_Stage_Ingest_Frame = CelloEmpty(Telemetry_Pipeline_Stage_Ingest_Frame);
+static var LGI[NLONG][4 + 2];
+
 /* the raw record, as Cello.h lays it out */
 static struct Type* rec_triples(var T) { return (struct Type*)((var*)T + NCACHE); }
 
@@ -326,6 +345,22 @@ static void setup_prefix_classes(void) {
     u->nmem = 2; u->off[0] = offsetof(struct RtC, m0); u->off[1] = offsetof(struct RtC, m1);
     u->mname[0] = "m0"; u->mname[1] = "m1"; u->slot = -1;
     struct RtC* body = header_init(PI[k], u->obj, AllocStatic);
+    body->m0 = rt_m0; body->m1 = rt_m1;
+    u->inst[0] = u->inst[1] = body;
+  }
+}
+
+static void setup_long_classes(void) {
+  /* two 40-byte names that differ at byte 33, a 64-byte name that is a prefix of a 100-byte one, two 255-byte names
+     that differ in the last byte */
+  char* nm[NLONG] = { longname(40, 33, 'a'), longname(40, 33, 'b'), longname(64, -1, 0), longname(100, -1, 0), longname(255, 254, 'a'), longname(255, 254, 'b') };
+  for (int k = 0; k < NLONG; k++) {
+    struct ucls* u = &U[LG0 + k];
+    u->obj = new_type_raw(nm[k], sizeof(struct RtC), NULL, 0, 0);
+    u->name = nm[k];
+    u->nmem = 2; u->off[0] = offsetof(struct RtC, m0); u->off[1] = offsetof(struct RtC, m1);
+    u->mname[0] = "m0"; u->mname[1] = "m1"; u->slot = -1;
+    struct RtC* body = header_init(LGI[k], u->obj, AllocStatic);
     body->m0 = rt_m0; body->m1 = rt_m1;
     u->inst[0] = u->inst[1] = body;
   }
@@ -1302,19 +1337,22 @@ static void cold_user_static(var T) {
 }
 
 /* 5 lookups of the five prefix classes in the order lperm, entry points rotating from ep0, then a sweep */
+static void group_history(struct tut* t, int g0, int gn, const int* order, int ep0, int mbit) {
+  HN = 0;
+  for (int i = 0; i < gn; i++) push_op(g0 + order[i], (ep0 + i) % 8, (i + mbit) & 1);
+  for (int c = 0; c < gn; c++) { push_op(g0 + c, EP_TINST, -1); push_op(g0 + c, EP_IMPL, -1); push_op(g0 + c, EP_METH, 0); push_op(g0 + c, EP_TIMPLM, 1); }
+  run_history(t);
+}
 static void prefix_history(struct tut* t, int lperm, int ep0) {
   int order[8]; decode_perm(NPFX, lperm, order);
-  HN = 0;
-  for (int i = 0; i < NPFX; i++) push_op(PF0 + order[i], (ep0 + i) % 8, (i + lperm) & 1);
-  for (int c = 0; c < NPFX; c++) { push_op(PF0 + c, EP_TINST, -1); push_op(PF0 + c, EP_IMPL, -1); push_op(PF0 + c, EP_METH, 0); push_op(PF0 + c, EP_TIMPLM, 1); }
-  run_history(t);
+  group_history(t, PF0, NPFX, order, ep0, lperm);
 }
 
 static void mode_prefix(void) {
   vf.phase = "prefix";
   is_rt = 1; h_restore = 0; rt_count_nontrivial = 1;
   uint64_t nrt = 0, nst = 0;
-  static int comp[NPFX], vr0[NPFX]; static var insts[NPFX]; static var ob[4 + 8];
+  static int comp[NPFX], vr0[NLONG + NPFX]; static var insts[NPFX]; static var ob[4 + 8];
   /* run-time types: every non-empty subset of the five classes in every declaration order, every lookup order */
   for (int mask = 1; mask < (1 << NPFX); mask++) {
     int S[NPFX], n = 0;
@@ -1338,6 +1376,37 @@ static void mode_prefix(void) {
       }
     }
   }
+  /* classes with long names (two that differ at byte 33, a 64-byte prefix of a 100-byte name, two 255-byte names that
+     differ in the last byte): every subset in every declaration order; lookups in the 6 rotations, both directions */
+  uint64_t nlg = 0;
+  {
+    static int lcomp[NLONG]; static var linsts[NLONG];
+    for (int mask = 1; mask < (1 << NLONG); mask++) {
+      int S[NLONG], n = 0;
+      for (int i = 0; i < NLONG; i++) if (mask & (1 << i)) S[n++] = LG0 + i;
+      int nperm = 1; for (int i = 2; i <= n; i++) nperm *= i;
+      for (int dperm = 0; dperm < nperm; dperm++) {
+        int p[8]; decode_perm(n, dperm, p);
+        for (int i = 0; i < n; i++) { lcomp[i] = S[p[i]]; linsts[i] = U[lcomp[i]].inst[0]; }
+        for (int lo = 0; lo < 2 * NLONG; lo++) {
+          vf_set_cur("prefix long mask=%d dperm=%d lorder=%d", mask, dperm, lo);
+          if (vf.replay && strcmp(vf.replay, vf_cur) != 0) continue;
+          vf_watchdog(60);
+          int order[NLONG];
+          for (int i = 0; i < NLONG; i++) order[i] = ((lo & 1 ? NLONG - 1 - i : i) + lo / 2) % NLONG;
+          var T = new_type_raw(rt_tname[0], 40, linsts, n, 0);
+          struct tut t; rt_tut(&t, T, rt_tname[0], n, lcomp, vr0, linsts, ob);
+          uint64_t c0 = rt_state_changes;
+          group_history(&t, LG0, NLONG, order, (lo + dperm + mask) % 8, lo);
+          vf.states += 1 + (rt_state_changes - c0);
+          del_raw(T);
+          vf.executions++; nlg++;
+          if (vf_want_sample()) vf_sample("%s (declares %d of 6 long-named classes)", vf_cur, n);
+        }
+      }
+    }
+  }
+  vf_extra("prefix_longname_type_histories", "%" PRIu64, nlg);
   /* statically declared types over the same classes */
   for (int si = 0; si < NSU; si++) {
     var T = *SU[si].objp;
@@ -1378,13 +1447,34 @@ static void mode_typecmp(void) {
   for (int k = 0; k < NPFX; k++) { TO[n] = U[PF0 + k].obj; TN[n++] = U[PF0 + k].name; }
   static const char* rtn[] = { "E", "E1000", "NetErrorT", "P", "Pr", "Typ", "In", "Int64", "Terminal_", "_x" };
   for (size_t i = 0; i < sizeof rtn / sizeof rtn[0]; i++) { TO[n] = new_type_raw(rtn[i], 8, NULL, 0, 0); TN[n++] = rtn[i]; }
+  /* names that agree for a long time: statically declared ones, and run-time types of length 31/32/33/40/64/100 whose first
+     difference is at byte 30/31/32/33/63/64/99, the unmodified prefixes of those lengths (each a proper prefix of the longer
+     ones), and two 255-byte names that differ in the last byte */
+  TO[n] = Telemetry_Pipeline_Stage_Ingest_Frame_Decoder; TN[n++] = "Telemetry_Pipeline_Stage_Ingest_Frame_Decoder";
+  TO[n] = Telemetry_Pipeline_Stage_Ingest_Frame_Encoder; TN[n++] = "Telemetry_Pipeline_Stage_Ingest_Frame_Encoder";
+  TO[n] = Telemetry_Pipeline_Stage_Ingest_Frame; TN[n++] = "Telemetry_Pipeline_Stage_Ingest_Frame";
+  {
+    static const int Ls[] = { 31, 32, 33, 40, 64, 100 }, Ds[] = { 30, 31, 32, 33, 63, 64, 99 };
+    for (size_t li = 0; li < 6; li++) {
+      char* nm = longname(Ls[li], -1, 0);
+      TO[n] = new_type_raw(nm, 8, NULL, 0, 0); TN[n++] = nm;
+      for (size_t di = 0; di < 7; di++) {
+        if (Ds[di] >= Ls[li]) continue;
+        for (char c = 'a'; c <= 'b'; c++) { nm = longname(Ls[li], Ds[di], c); TO[n] = new_type_raw(nm, 8, NULL, 0, 0); TN[n++] = nm; }
+      }
+    }
+    for (char c = 'a'; c <= 'b'; c++) { char* nm = longname(255, 254, c); TO[n] = new_type_raw(nm, 8, NULL, 0, 0); TN[n++] = nm; }
+    if (n > 160) fatal("type object table too small");
+  }
   vf_extra("type_objects", "%d", n);
   for (int a = 0; a < n; a++) for (int b = 0; b < n; b++) {
     size_t la = strlen(TN[a]), lb = strlen(TN[b]);
     int pfx = a != b && (la < lb ? strncmp(TN[a], TN[b], la) == 0 : strncmp(TN[a], TN[b], lb) == 0);
     vf_set_cur("typecmp a=%s b=%s", TN[a], TN[b]);
     if (vf.replay && strcmp(vf.replay, vf_cur) != 0) continue;
-    const char* feat = a == b ? "same-type" : pfx ? "prefix-related-names" : "unrelated-names";
+    size_t common = 0; while (TN[a][common] && TN[a][common] == TN[b][common]) common++;
+    const char* feat = a == b ? "same-type" : pfx ? (common >= 30 ? "long-prefix-related-names" : "prefix-related-names") : common >= 30 ? "names-differ-after-byte-30" : "unrelated-names";
+    if (!pfx && a != b && common >= 30) vf.nontrivial++;
     char l[160];
     volatile int c = 0, d = 0; volatile bool e1 = 0, ne = 0, l1 = 0, g1 = 0, le1 = 0, ge1 = 0; volatile uint64_t ha = 0, hb = 0;
     var ex = VF_CATCH({ c = cmp(TO[a], TO[b]); d = cmp(TO[b], TO[a]); e1 = eq(TO[a], TO[b]); ne = neq(TO[a], TO[b]); l1 = lt(TO[a], TO[b]); g1 = gt(TO[a], TO[b]);
@@ -2152,6 +2242,7 @@ int main(int argc, char** argv) {
   crosscheck_header();
   setup_rt_classes();
   setup_prefix_classes();
+  setup_long_classes();
   discover_cache();
 
   const char* mode = vf_param("mode", "matrix");
